@@ -3,9 +3,11 @@ import FordModel.Path
 import FordModel.Nav
 import FordModel.Url
 import FordModel.StrLink
+import FordModel.ReadMore
+import FordModel.Relurl
 import FordModel.Generated.C09
 namespace Ford
-open Proto Ford.Path Ford.Nav Ford.Url Ford.StrLink Ford.Generated.C09
+open Proto Ford.Path Ford.Nav Ford.Url Ford.StrLink Ford.ReadMore Ford.Relurl Ford.Generated.C09
 
 namespace C09D
 
@@ -37,6 +39,15 @@ def nodesOf : List Str → List Node
   | _ => []
 
 def absSegs (p : Str) : List Seg := splitSlash p
+
+/-- segments of an absolute path as `pathlib` keeps them (no empty ones) -/
+def segsOf (p : Str) : List Seg := (splitSlash p).filter fun x => x != []
+
+/-- `[flag, text]` -> optional string -/
+def optOf (flag text : Str) : Option Str := if flag == ['1'] then some text else none
+
+/-- a file system known at one point: `real p = rp` -/
+def pointFS (p rp : List Seg) : FS := { real := fun q => if q = p then rp else q }
 
 end C09D
 
@@ -99,6 +110,33 @@ def dispatchC09 : List Str → Option (List Str)
       match args with
       | [base, page] => some [render (projectUrl (absSegs base) (splitSlash page))]
       | _ => some [s "bad-request"]
+    else if cmd == s "c09.readmore" then
+      -- hasUrl, url ("none" without), explicit?, explicit text, paragraph?, paragraph text, documentation
+      match args with
+      | [hu, url, ef, et, pf, pt, doc] =>
+        let hasUrl := hu == ['1']
+        some [ (if readMore summaryTables hasUrl (optOf ef et) (optOf pf pt) doc then ['1'] else ['0']),
+               render (readMoreHref (if hasUrl then some (splitSlash url) else none)) ]
+      | _ => some [s "bad-request"]
+    else if cmd == s "c09.normalise" then
+      -- joined absolute path, its realpath
+      match args with
+      | [p, rp] => some [renderAbs (normalisePath relurlTables (pointFS (segsOf p) (segsOf rp)) (segsOf p))]
+      | _ => some [s "bad-request"]
+    else if cmd == s "c09.relurl" then
+      -- absolute href, its realpath, directory of the page
+      match args with
+      | [h, rh, pd] =>
+        some [ match relurl relurlTables (pointFS (segsOf h) (segsOf rh)) (segsOf pd) (segsOf h) with
+               | some r => render r
+               | none => s "unchanged" ]
+      | _ => some [s "bad-request"]
+    else if cmd == s "c09.relurlcheck" then
+      some [ (if tablesOk relurlTables then ['1'] else ['0']),
+             (match relurlTables.normalise with | .resolve => s "resolve" | .abspath => s "abspath"),
+             (if relurlTables.relurlResolves then ['1'] else ['0']),
+             (match summaryTables.rule with | .cutIfUrl => s "cutIfUrl" | .cutAlways => s "cutAlways"),
+             (if summaryTables.linkNeedsUrl then ['1'] else ['0']) ]
     else if cmd == s "c09.quote" then
       match args with
       | [x] => some [quote x]
